@@ -7,7 +7,7 @@ from ..sched import replay_case, run_case
 from ..spaces import all_res, all_seq, desc_prio, shard_iter
 
 ID = "C05"
-BUDGET = {"quick": 100, "thorough": 900}
+BUDGET = {"quick": 240, "thorough": 900}
 MONITORS = [mon_c05]
 
 
